@@ -5,12 +5,16 @@
    setHelper, which marks the readers): ONE evaluateAll over bindings registered in dependency order leaves every registered
    binding clean and every bound property equal to the denotation of its expression over the values after the pass
    (C06_one_pass_consistent_abstract), for every network, every interpretation of the functions and every delivery order.
-   PARTIAL: the executable model is tied to this abstract theorem by the extracted checker PropCheck.check_c06_after_evalall on
-   every evaluateAll of every generated history and by correspondence with the real library (tests), not by a refinement proof;
+   Refinement (coq/PropSimLazy.v): in worlds all of whose bindings belong to one explicit evaluator and whose observers do not act,
+   Property::setHelper of the executable model is the abstract `lset` and evaluateAll is the abstract `eval_all`; hence a coherent
+   world stays coherent, an assignment changes no other property, and after ONE evaluateAll over bindings registered in dependency
+   order every registered bound property equals its expression recomputed from scratch (C06_one_pass_consistent).
+   PARTIAL: mixed worlds (immediate and evaluator-driven bindings together, several evaluators, acting observers) are covered by the
+   extracted checker PropCheck.check_c06_after_evalall on every evaluateAll of every generated history and by correspondence;
    bindings that were reset / replaced / destroyed leave the registry in destroy_binding (definition), which is what evaluateAll
    iterates, and own no subscription any more (C07_reset_disconnects, C10_no_orphan_subscription). *)
 From KDB Require Import Util PropDefs PropProofs.
-From KDB Require PropAbs PropAbsLazy.
+From KDB Require PropAbs PropAbsLazy PropCheck PropSim PropSimLazy.
 
 (* a notification reaching a node of an evaluator-driven binding only sets dirty flags *)
 Theorem C06_notification_only_marks :
@@ -66,6 +70,28 @@ Theorem C06_assignment_changes_nothing_else_abstract :
     PropAbsLazy.ltr s p = None -> q <> p -> PropAbsLazy.lenv (PropAbsLazy.lset order s p v) q = PropAbsLazy.lenv s q.
 Proof. exact PropAbsLazy.lset_silent. Qed.
 Print Assumptions C06_assignment_changes_nothing_else_abstract.
+
+(* ---- the executable model ---- *)
+(* LSC: link invariant, no acting observer, every live binding registered with the evaluator ev; LCOH: the abstraction of the world
+   satisfies the abstract invariant for the delivery order of the world itself; regs_of: the properties updated by the registered
+   bindings in registration order; lchain: no registered binding reads the property it updates or one updated by a later one *)
+Theorem C06_assignment_only_marks :
+  forall fn rtl ev, ev <> 0 -> forall f w p v w',
+    PropSimLazy.LSC ev w -> PropSimLazy.LCOH fn w -> set_helper fn rtl (S f) w p v = (w', None) ->
+    PropSimLazy.LSC ev w' /\ PropSimLazy.LCOH fn w' /\ PropSimLazy.LFR w w' /\ (forall q, q <> p -> values w' q = values w q).
+Proof. exact PropSimLazy.lazy_assignment. Qed.
+Print Assumptions C06_assignment_only_marks.
+
+Theorem C06_one_pass_consistent :
+  forall fn rtl ev, ev <> 0 -> forall fuel w e st w',
+    PropSimLazy.LSC ev w -> PropSimLazy.LCOH fn w -> lookup (w_bevs w) e = Some ev -> nth_error (w_evps w) ev = Some st ->
+    NoDup (PropSimLazy.regs_of w (ep_registry st)) -> PropSimLazy.lchain w (PropSimLazy.regs_of w (ep_registry st)) ->
+    step1 fn rtl fuel w (BevEvalAll e) = (w', None) ->
+    PropSimLazy.LSC ev w' /\ PropSimLazy.LCOH fn w' /\
+    forall q x pr z, In q (PropSimLazy.regs_of w (ep_registry st)) -> PropSimLazy.lz_of w' q = Some x -> lookup (w_props w') q = Some pr ->
+      PropCheck.den_node fn (values w') (b_root x) = Some z -> pr_value pr = z.
+Proof. exact PropSimLazy.lazy_evalall_consistent. Qed.
+Print Assumptions C06_one_pass_consistent.
 
 (* non-vacuity: a chain created in dependency order is consistent after ONE evaluateAll; before it nothing moves *)
 Example C06_example :
